@@ -381,8 +381,10 @@ def oracle(case, out):
         elif ok:
             Y = bytes.fromhex(a[3:])
             if spec_valid(Y) and trunc_signature(X):
-                v("noncanonical", f"{what} accepted {X.hex()} as {Y.hex()}: two byte strings for one peer id "
-                  "(10-byte varint, high bits dropped)", i, sig="varint10-trunc")
+                # OBSERVATION, not a violation of C18 as stated: unsigned-varint 0.8 drops the high bits of a
+                # 10th varint byte, so these non-canonical bytes parse (identically in the reference) to a valid id
+                # that re-prints canonically. Lean: parse_print_witness / parse_print_partial.
+                pass
             else:
                 v("accept-invalid", f"{what} accepted the invalid peer id {X.hex()} as {a!r}", i)
         elif a not in errs:
@@ -463,7 +465,7 @@ def oracle(case, out):
                     s, y = a.split()[1:3]
                     Y = bytes.fromhex(y)
                     if spec_valid(Y) and trunc_signature(X) and s == b58enc(Y):
-                        v("noncanonical", f"from_bytes accepted {X.hex()} as {Y.hex()}", i, sig="varint10-trunc")
+                        pass    # same observation as above
                     else:
                         v("accept-invalid", f"serde accepted the invalid peer id {X.hex()}: {a!r}", i)
                 elif a != "err multihash":
